@@ -69,7 +69,7 @@ PORT_NAMES = ["HTTP", "POSTGRES_SERVER", "DNS", "FTP", "NTP", "SSH", "ARP"]
 FILE_TYPES = ["TXT", "DOC", "PDF", "JPEG", "PNG", "MP3", "ZIP", "DB", "UNKNOWN"]
 
 DEFAULT_PROFILE: Dict[str, Any] = {
-    "topologies": ["lan", "routed", "routed2", "firewall"],
+    "topologies": ["lan", "routed", "routed", "routed2", "routed2", "firewall", "firewall", "wireless"],
     "max_hosts_per_subnet": 3,
     "durations": [0, 1, 2, 3],
     "default_durations": [0, 1, 2, 3, 10],
@@ -441,6 +441,35 @@ class Gen:
             self.inv["routers"][name] = {"ports": copy.deepcopy(ports), "acl": copy.deepcopy(acl), "routes": copy.deepcopy(routes), "default_route": copy.deepcopy(default), "num_ports": 5}
         return cfgs
 
+    def build_wireless(self):
+        """net0 - wireless router 1 ~~~ (air, WIFI_2_4 or WIFI_5) ~~~ wireless router 2 - net1."""
+        r = self.r
+        freq = r.choice(["WIFI_2_4", "WIFI_2_4", "WIFI_5"])
+        wap = {1: "10.1.0.1", 2: "10.1.0.2"}
+        cfg_by_router: Dict[int, Dict] = {}
+
+        def attach(s, gw, mask, sw):
+            name = f"wrouter_{s + 1}"
+            cfg_by_router[s] = {"type": "wireless-router", "hostname": name, "router_interface": {"ip_address": gw, "subnet_mask": mask}, "wireless_access_point": {"ip_address": wap[s + 1], "subnet_mask": "255.255.255.0", "frequency": freq}, "start_up_duration": self.pick_duration(), "shut_down_duration": self.pick_duration()}
+            self.link(name, 2, sw, 8)
+
+        cfgs = self._routed_subnets(2, attach)
+        pool = [self.inv["hosts"][c["hostname"]]["ip"] for c in cfgs]
+        for s in (0, 1):
+            other = 1 - s
+            third = 10 * (other + 1)
+            cfg = cfg_by_router[s]
+            acl = self.router_acl(pool)
+            cfg["acl"] = acl
+            cfg["routes"] = [{"address": f"192.168.{third}.0", "subnet_mask": self.inv["subnets"][f"net{other}"]["mask"], "next_hop_ip_address": wap[other + 1], "metric": 0}]
+            self.nodes.insert(0, cfg)
+            self.inv["routers"][cfg["hostname"]] = {"ports": {1: dict(cfg["wireless_access_point"]), 2: dict(cfg["router_interface"])}, "acl": copy.deepcopy(acl), "routes": copy.deepcopy(cfg["routes"]), "default_route": None, "num_ports": 2, "wireless": True}
+        if self.chance(0.75) and "tight_links" not in self.avoid:
+            cap = round(self.p["frame_mbits"] * r.choice([1.5, 2.0, 3.0, 4.0, 6.0, 12.0]), 6)
+            self.airspace = {"frequency_max_capacity_mbps": {freq: cap}}
+            self.inv["airspace"] = {freq: cap}
+        return cfgs
+
     def build_firewall(self):
         """internal net0 | dmz net1 | external net2 around one firewall (directly attached switches)."""
         r = self.r
@@ -679,7 +708,14 @@ class Gen:
         }
         # scenario-declared ACL rules name host addresses (all in ip_list) - see router_acl()
         if self.inv["routers"] and self.chance(0.8):
-            nodes_opts["routers"] = [{"hostname": rn} for rn in self.inv["routers"]]
+            routers_obs = []
+            for rn, rt in self.inv["routers"].items():
+                ro: Dict[str, Any] = {"hostname": rn}
+                if self.chance(0.35):
+                    # explicit port list, deliberately shorter or longer than num_ports now and then
+                    ro["ports"] = [{"port_id": k} for k in r.sample(range(1, rt.get("num_ports", 5) + 2), r.randint(0, min(4, rt.get("num_ports", 5))))]
+                routers_obs.append(ro)
+            nodes_opts["routers"] = routers_obs
             nodes_opts.update(acl_common)
         if self.inv["firewalls"] and self.chance(0.8):
             nodes_opts["firewalls"] = [{"hostname": fn} for fn in self.inv["firewalls"]]
@@ -824,6 +860,8 @@ class Gen:
                 th["app_executions"] = r.choice([{"high": 5, "medium": 3, "low": 2}, {"high": 2, "medium": 1, "low": 0}])
             game["thresholds"] = th
         network: Dict[str, Any] = {"nodes": self.nodes, "links": self.links}
+        if getattr(self, "airspace", None):
+            network["airspace"] = self.airspace
         if self.chance(self.p["nmne"]):
             network["nmne_config"] = {"capture_nmne": True, "nmne_capture_keywords": r.choice([["DELETE"], ["DELETE", "ENCRYPT"], ["SELECT", "DELETE", "ENCRYPT", "INSERT"]])}
             self.inv["nmne"] = True
